@@ -177,6 +177,74 @@ def obligation(item):
     return res
 
 
+# ---------------------------------------------------------------- user classes x several models in one load
+UC_GRAMMAR = """
+Model: imports*=Import boxes*=Box;
+Import: 'import' importURI=STRING;
+Box: 'box' name=ID '{' items*=Item '}';
+Item: 'item' name=ID ('->' to=[Item])?;
+"""
+UC_FILES = {
+    'main.m': 'import "lib.m"\n\nbox m1 {\n  item a -> x\n\titem b\n}\n box m2 { item c -> a }',
+    'lib.m': '\n box l1 { item x\n item y -> x }\n',
+}
+
+
+def user_class_scenario(layout):
+    """objects of user classes, main model + imported model built in one load:
+    every Box / Item span must be exactly its own text, siblings ordered,
+    get_location consistent (positions computed from the file text)"""
+    import os
+    import re
+    import shutil
+    import tempfile
+    from textx import metamodel_from_str, get_location, get_children
+    import textx.scoping.providers as P
+
+    def init(self, parent=None, **kw):
+        self.parent = parent
+        for k, v in kw.items():
+            setattr(self, k, v)
+    classes = [type(n, (object,), {'__init__': init}) for n in (['Box', 'Item'] if layout != 'generic' else [])]
+    tmp = tempfile.mkdtemp(prefix='c06u_')
+    problems = []
+    try:
+        for fn, text in UC_FILES.items():
+            with open(os.path.join(tmp, fn), 'w') as f:
+                f.write(text)
+        mm = metamodel_from_str(UC_GRAMMAR, classes=classes)
+        mm.register_scope_providers({'*.*': P.PlainNameImportURI()})
+        main = mm.model_from_file(os.path.join(tmp, 'main.m'))
+        models = {os.path.basename(m._tx_filename): m for m in main._tx_model_repository.all_models}
+        models['main.m'] = main
+        for fn, m in models.items():
+            text = UC_FILES[fn]
+            for o in get_children(lambda x: type(x).__name__ in ('Box', 'Item'), m):
+                kw = 'box' if type(o).__name__ == 'Box' else 'item'
+                mo = re.search(r'%s %s\b' % (kw, o.name), text)
+                start = mo.start()
+                if kw == 'box':
+                    end = text.index('}', start) + 1
+                else:
+                    end = mo.end()
+                    arrow = re.match(r'\s*->\s*\w+', text[end:])
+                    if arrow:
+                        end += arrow.end()
+                if (o._tx_position, o._tx_position_end) != (start, end):
+                    problems.append('%s %s in %s: span (%s, %s), its text is at (%d, %d)' % (
+                        kw, o.name, fn, o._tx_position, o._tx_position_end, start, end))
+                    continue
+                loc = get_location(o)
+                line = text.count('\n', 0, start) + 1
+                col = start - (text.rfind('\n', 0, start) + 1) + 1
+                want = {'line': line, 'col': col, 'nchar': end - start, 'filename': os.path.join(tmp, fn)}
+                if loc != want:
+                    problems.append('%s %s in %s: get_location %s, expected %s' % (kw, o.name, fn, loc, want))
+        return problems
+    finally:
+        shutil.rmtree(tmp, ignore_errors=True)
+
+
 def main():
     import textx.model as M
     chk = Check(PROP, 'exploration')
@@ -215,6 +283,11 @@ def main():
             chk.violation('grammar %s, input %r%s: %s' % (v['grammar'], v['text'],
                                                          ' (from file)' if v['from_file'] else '', v['detail']), v)
         chk.sample({'grammar': r['grammar'], 'n': r['n'], 'models_checked': r['witnesses']})
+    for layout in ('generic', 'user-classes'):
+        for pr in user_class_scenario(layout)[:2]:
+            chk.violation('two-file load, %s: %s' % (layout, pr), {'user_class_scenario': layout})
+        wit += 2
+    chk.cov['bounds']['two_file_scenario'] = 'main.m imports lib.m, generic classes and user classes (concrete)'
     chk.cov['witness_replays'] = wit
     chk.cov['evaluations'] = max(chk.cov['evaluations'], wit)
     chk.cov['distinct_nontrivial'] = wit
@@ -223,6 +296,13 @@ def main():
 
 
 def replay(data):
+    if 'user_class_scenario' in data:
+        pr = user_class_scenario(data['user_class_scenario'])
+        return bool(pr), pr[:2]
+    return _replay(data)
+
+
+def _replay(data):
     g = next(x for x in corpus_list() if x['name'] == data['grammar'])
     mm = pegcheck.build_mm(g)
     text = data['text']
